@@ -212,7 +212,7 @@ class RefInterp(ObjInterp):
                     o = self.obj_of(args[0], fr)
                     return ('addr', o) if o else None
                 return self.pval(args[0], st, fr, depth + 1)
-            vals = self.call_value(e, st, fr)
+            vals = [thaw(st)['$rv:' + str(e['id'])]] if ('$rv:' + str(e['id'])) in thaw(st) else self.call_value(e, st, fr)
             if vals and len(set(map(repr, vals))) == 1:
                 v = vals[0]
                 if v in ('null', 'undef') + OBJS or (isinstance(v, tuple) and v[0] == 'addr'):
@@ -273,7 +273,7 @@ class RefInterp(ObjInterp):
                 op = {'less': '<', 'greater': '>', 'less_equal': '<=', 'greater_equal': '>=', 'equal_to': '==',
                       'not_equal_to': '!='}[m.group(1)]
                 return self.compare(op, a, b)
-            vals = self.call_value(e, st, fr)
+            vals = [thaw(st)['$rv:' + str(e['id'])]] if ('$rv:' + str(e['id'])) in thaw(st) else self.call_value(e, st, fr)
             if vals and len(set(map(repr, vals))) == 1 and (isinstance(vals[0], bool) or (
                     isinstance(vals[0], tuple) and vals[0][0] in ('lt', 'ge'))):
                 return vals[0]
@@ -511,6 +511,10 @@ class RefInterp(ObjInterp):
         self.inlined[callee['id']] = self.inlined.get(callee['id'], 0) + 1
         for s2, rv in self.run_fn(callee, env, freeze(d), fr, n, frame_depth(fr) + 1):
             d2 = {k: v for k, v in thaw(s2).items() if not k.startswith('v:') or k in before}
+            # the value the call returned belongs to the state *at the call*: a later evaluation of the call expression (the
+            # initialiser `T *old = takeOver(input)`) must not re-run the callee in the state the call itself produced
+            if rv in ('null', 'undef') + OBJS or isinstance(rv, (bool, tuple)):
+                d2['$rv:' + str(n['id'])] = rv
             s3 = freeze(d2)
             if s3 not in res:
                 res.append(s3)
